@@ -43,6 +43,8 @@ type Plan struct {
 	Level      string `json:"level"`
 	Race       bool   `json:"race"`       // runs want the -race build
 	RaceEvery  int    `json:"race_every"` // > 0: every RaceEvery-th run wants the -race build
+	RaceFrom   int    `json:"race_from"`  // > 0: runs with RaceFrom <= idx < RaceTo want the -race build
+	RaceTo     int    `json:"race_to"`
 }
 
 type PropDef struct {
